@@ -182,8 +182,36 @@ def directions(ctx, rule="R09.4"):
         ctx.check(okn and oks, rule, site, "the directions reaching the kernel - and the separated-directions test - are the normalised ones", "normalised-reach")
     sd = prog.func(VAR, "_separate_dirs_test")
     t = ast.unparse(sd)
-    ok = "np.arccos(s_prod) >= 2 * angles_tol" in t and "np.minimum(np.abs(np.dot(direction[i], direction[j])), 1)" in t and "range(i + 1, direction.shape[0])" in t
-    ctx.check(ok, rule, VAR + "::_separate_dirs_test", "directions count as separated iff every pair encloses at least twice the tolerance (smallest angle, all pairs)", "separated")
+    ok = "np.arccos(s_prod) >= 2 * angles_tol" in t
+    # every unordered pair of directions is tested once, with the absolute value of the projection clamped to 1: the pair loops are
+    # unrolled statically for 2, 3 and 4 directions (index loops, enumerate or slices alike)
+    from ..small import UnrollError, subst_fold, unroll_for
+
+    outer = [s for s in sd.body if isinstance(s, ast.For)]
+    pairs_ok = len(outer) == 1
+    if pairs_ok:
+        for n_dir in (2, 3, 4):
+            lens, env = {"direction": n_dir}, {"direction.shape[0]": n_dir, "len(direction)": n_dir}
+            got = []
+            try:
+                for b1 in unroll_for(outer[0], lens, env):
+                    for st in outer[0].body:
+                        if not isinstance(st, ast.For):
+                            continue
+                        st1 = subst_fold(st, b1, lens)
+                        for b2 in unroll_for(st1, lens, env):
+                            bb = dict(b1)
+                            bb.update(b2)
+                            for x in st.body:
+                                if isinstance(x, ast.Assign) and ast.unparse(x.targets[0]) == "s_prod":
+                                    got.append(ast.unparse(subst_fold(x.value, bb, lens)))
+            except UnrollError:
+                pairs_ok = False
+                break
+            want = ["np.minimum(np.abs(np.dot(direction[%d], direction[%d])), 1)" % (a, b) for a in range(n_dir) for b in range(a + 1, n_dir)]
+            if sorted(got) != sorted(want):
+                pairs_ok = False
+    ctx.check(ok and pairs_ok, rule, VAR + "::_separate_dirs_test", "directions count as separated iff every pair encloses at least twice the tolerance (smallest angle via |cos| clamped to 1; all unordered pairs, unrolled for 2-4 directions)", "separated")
     sq = [s for s in ast.walk(run[0]) if isinstance(s, ast.If) and ast.unparse(s.test) == "dir_no == 1"] if run else []
     ctx.check(len(sq) == 1 and norm_stmt(sq[0].body[0]) in ("(estimates, counts) = (estimates[0], counts[0])", "estimates, counts = (estimates[0], counts[0])", "estimates, counts = estimates[0], counts[0]"), rule, site, "a single direction returns 1-D results", "squeeze")
 
@@ -251,11 +279,13 @@ def ang2dir_rule(ctx, rule="R09.7"):
     class Undecided(Exception):
         pass
 
-    def columns(e, n_ang):
+    trig = {}  # local name -> "np.sin" / "np.cos" for `name = np.sin(angles)`
+
+    def columns(e, n_ang, base="angles"):
         """angle columns selected by `angles`, `angles[:, a:b]`, `angles[:, k]` -> list of column indices"""
-        if isinstance(e, ast.Name) and e.id == "angles":
+        if isinstance(e, ast.Name) and e.id == base:
             return list(range(n_ang))
-        if isinstance(e, ast.Subscript) and isinstance(e.value, ast.Name) and e.value.id == "angles" and isinstance(e.slice, ast.Tuple) and len(e.slice.elts) == 2 \
+        if isinstance(e, ast.Subscript) and isinstance(e.value, ast.Name) and e.value.id == base and isinstance(e.slice, ast.Tuple) and len(e.slice.elts) == 2 \
                 and isinstance(e.slice.elts[0], ast.Slice) and e.slice.elts[0].lower is None and e.slice.elts[0].upper is None:
             c = e.slice.elts[1]
             if isinstance(c, ast.Slice) and c.step is None:
@@ -272,9 +302,22 @@ def ang2dir_rule(ctx, rule="R09.7"):
                 return [k]
         raise Undecided("angle selection %s" % ast.unparse(e))
 
+    def trig_base(e):
+        """`sin_a`, `sin_a[:, ...]` for a local bound to np.sin(angles) / np.cos(angles) -> (function, local name)"""
+        b = e.value if isinstance(e, ast.Subscript) else e
+        if isinstance(b, ast.Name) and b.id in trig:
+            return trig[b.id], b.id
+        return None, None
+
     def value(e, n_ang, vec):
         if isinstance(e, ast.Call) and ast.unparse(e.func) == "np.prod" and len(e.args) == 1 and {k.arg: ast.unparse(k.value) for k in e.keywords} == {"axis": "1"}:
             inner = e.args[0]
+            fnm, loc = trig_base(inner)
+            if fnm is not None:
+                t = _Trig()
+                for j in columns(inner, n_ang, loc):
+                    t = t.mul(_Trig({j: 1}, {}) if fnm == "np.sin" else _Trig({}, {j: 1}))
+                return t
             if isinstance(inner, ast.Call) and ast.unparse(inner.func) in ("np.sin", "np.cos") and len(inner.args) == 1:
                 cols = columns(inner.args[0], n_ang)
                 t = _Trig()
@@ -285,6 +328,11 @@ def ang2dir_rule(ctx, rule="R09.7"):
             cols = columns(e.args[0], n_ang)
             if len(cols) == 1:
                 return _Trig({cols[0]: 1}, {}) if ast.unparse(e.func) == "np.sin" else _Trig({}, {cols[0]: 1})
+        fnm, loc = trig_base(e)
+        if fnm is not None:
+            cols = columns(e, n_ang, loc)
+            if len(cols) == 1:
+                return _Trig({cols[0]: 1}, {}) if fnm == "np.sin" else _Trig({}, {cols[0]: 1})
         if isinstance(e, ast.BinOp) and isinstance(e.op, ast.Mult):
             return value(e.left, n_ang, vec).mul(value(e.right, n_ang, vec))
         if isinstance(e, ast.Subscript) and ast.unparse(e.value) == "vec":
@@ -308,6 +356,15 @@ def ang2dir_rule(ctx, rule="R09.7"):
         n_ang = dim - 1
         for st in stmts:
             st2 = subst_fold(st, bind) if bind else st
+            if isinstance(st2, ast.Assign) and len(st2.targets) == 1:
+                # sin_a = np.sin(angles)   /   sin_a, cos_a = np.sin(angles), np.cos(angles)
+                tg = st2.targets[0].elts if isinstance(st2.targets[0], ast.Tuple) else [st2.targets[0]]
+                vs = st2.value.elts if isinstance(st2.value, ast.Tuple) else [st2.value]
+                if len(tg) == len(vs) and all(isinstance(t_, ast.Name) and isinstance(v_, ast.Call) and ast.unparse(v_.func) in ("np.sin", "np.cos") and len(v_.args) == 1
+                                              and ast.unparse(v_.args[0]) == "angles" for t_, v_ in zip(tg, vs)):
+                    for t_, v_ in zip(tg, vs):
+                        trig[t_.id] = ast.unparse(v_.func)
+                    continue
             if isinstance(st2, ast.Assign) and len(st2.targets) == 1 and ast.unparse(st2.targets[0].value if isinstance(st2.targets[0], ast.Subscript) else st2.targets[0]) == "vec":
                 k = vec_col(st2.targets[0])
                 if isinstance(k, list):
